@@ -26,10 +26,11 @@ def cases(run: Run):
         steps = rng.randint(3, 7)
         out.append({
             "imp_k": rng.randint(1, steps - 1), "split_at_impulse": rng.random() < 0.6,
+            "add_at": [3, 4] if steps >= 5 else [1, 2],
             "dt": rng.choice([60, 60, 30]), "steps": steps, "ns": rng.randint(1, 2), "nt": rng.randint(2, 3), "prop": rng.choice(["two_body", "special_perturbations"]),
             "start_sec": rng.choice([0, 17]), "seed": rng.randint(1, 10**6), "impulse": rng.random() < 0.6,
             "variants": rng.sample(["truth_only", "greedy", "noise_seed", "out2", "split", "order", "extra_target", "extra_sensor", "fewer_targets", "random_decision", "filter_model", "filter_model", "no_additions",
-                                    "drop_first", "drop_first", "reorder"], run.n(7, 10)),
+                                    "drop_first", "drop_first", "reorder", "id_reused", "id_reused"], run.n(7, 10)),
             "additions": rng.choice([2, 2, 0, 1]),
             # radiation pressure on, and every target with its own mass and area: a satellite's truth must not depend on which other satellites exist
             "srp": rng.random() < 0.6, "fresh": rng.choice(["drop_first", "drop_first", "reorder", "base"]),
@@ -72,6 +73,20 @@ def build(c, v):
         events.append({"scope": "agent_propagation", "scope_instance_id": 10002, "start_time": scen.iso(start + timedelta(seconds=c["dt"] * c.get("imp_k", 2))),
                        "end_time": scen.iso(start + timedelta(seconds=c["dt"] * c.get("imp_k", 2))), "event_type": "impulse", "thrust_vector": [0.0, 0.01, 0.0], "thrust_frame": "ntw", "planned": False})
     # targets that join at run time (scenario-step events): their truth must not depend on estimation settings either
+    add_at = c.get("add_at", [1, 2])
+    if v == "id_reused" and c.get("additions", 0) >= 1 and add_at[0] >= 3:
+        # an agent with the id of the first late joiner flew earlier and left (another orbit, another platform): the late joiner is a new agent
+        ecef = lla2ecef(np.array([np.radians(-6.0), np.radians(9.0), 1200.0]))
+        eci = ecef2eci(ecef, datetime(2021, 3, 30, 16, 1, 30))
+        r = eci[:3]
+        vv = np.cross([0, 0, 1.0], r)
+        vv = vv / np.linalg.norm(vv) * np.sqrt(398600.4418 / np.linalg.norm(r))
+        pred = scen.target_cfg(10101, r, vv)
+        pred["platform"].update(mass=90.0, visual_cross_section=35.0)
+        eng[0]["targets"].append(pred)
+        gone = scen.iso(start + timedelta(seconds=c["dt"] * 2))  # it is propagated through the first step and leaves in the second
+        events.append({"scope": "scenario_step", "scope_instance_id": 0, "start_time": gone, "end_time": gone, "event_type": "agent_removal",
+                       "tasking_engine_id": 1, "agent_id": 10101, "agent_type": "target"})
     for j in range(c.get("additions", 0) if v != "no_additions" else 0):
         lat, lon = [(3.0, -1.0), (-2.0, 5.0)][j]
         ecef = lla2ecef(np.array([np.radians(lat), np.radians(lon), 900.0 + 40 * j]))
@@ -79,7 +94,7 @@ def build(c, v):
         r = eci[:3]
         vv = np.cross([0, 0, 1.0], r)
         vv = vv / np.linalg.norm(vv) * np.sqrt(398600.4418 / np.linalg.norm(r))
-        when = scen.iso(start + timedelta(seconds=c["dt"] * (j + 1)))
+        when = scen.iso(start + timedelta(seconds=c["dt"] * add_at[j]))
         events.append({"scope": "scenario_step", "scope_instance_id": 0, "start_time": when, "end_time": when, "event_type": "target_addition",
                        "tasking_engine_id": 1, "target_agent": scen.target_cfg(10101 + j, r, vv)})
     cfg = scen.scenario_cfg(start, c["dt"], c["dt"] * (c["steps"] + 1), eng, out_step=(2 * c["dt"] if v == "out2" else c["dt"]), truth_only=(v == "truth_only"),
